@@ -8,8 +8,8 @@ import re
 
 from ..runner import Spec, Stream
 
-FIELDS_MODEL = ("t", "oc", "c", "s", "n", "i", "b", "it", "f", "cf")
-FIELDS_REF = ("t", "oc", "c", "s", "n", "i", "b", "it", "f", "cf")
+FIELDS_MODEL = ("t", "oc", "c", "s", "n", "i", "b", "it", "f", "cf", "un")
+FIELDS_REF = ("t", "oc", "c", "s", "n", "i", "b", "it", "f", "cf", "un")
 WS = b" \t\r\n"
 
 
